@@ -52,7 +52,7 @@ def run_checks(patch):
     try:
         rc, out = sh("git apply %s" % os.path.abspath(patch), cwd=wt)
         assert rc == 0, out
-        env = dict(os.environ, VERIF_REPO=wt, VERIF_EVIDENCE_DIR=ev)
+        env = dict(os.environ, VERIF_REPO=wt, VERIF_EVIDENCE_DIR=ev)   # VERIF_CACHE_DIR is inherited if the caller set one
         m = json.load(open(os.path.join(VERIF, "MANIFEST.json")))
         for c in m["checks"]:
             rc, out = sh(c["quick_cmd"], cwd=VERIF, env=env)
